@@ -6,6 +6,7 @@
 use crate::core::*;
 use crate::hashseam::on_fresh_thread;
 use crate::rng::{mix, Rng};
+use cedar_policy::proto::traits::Protobuf;
 use cedar_policy::{Authorizer, AuthorizationError, Context, Decision, Entities, Entity, EntityUid, Policy, PolicyId, PolicySet, Request, RestrictedExpression, SlotId, Template};
 use serde::{Deserialize, Serialize};
 use std::collections::{BTreeMap, BTreeSet, HashMap, HashSet};
@@ -416,7 +417,8 @@ fn compare(m: &Model, q: &Req, got: &(bool, BTreeSet<String>, BTreeSet<String>, 
 
 /// Build real objects for a model state through a given route and check every request.
 /// route 0: same ids, permuted insertion; route 1: ids respelled through a bijection;
-/// route 2: statics and templates parsed from one concatenated text (auto-numbered ids), links added afterwards.
+/// route 2: statics and templates parsed from one concatenated text (auto-numbered ids), links added afterwards;
+/// route 3 / 4: as route 0, then the whole set through its JSON / protobuf round trip.
 fn replica_check(m: &Model, reqs: &[Req], perm: u64, route: u8, step: usize, obs: &mut Obs) -> Option<Violation> {
     let mut rng = Rng::new(perm);
     let mut order: Vec<u8> = m.items.keys().copied().collect();
@@ -496,15 +498,42 @@ fn replica_check(m: &Model, reqs: &[Req], perm: u64, route: u8, step: usize, obs
             }
         }
     }
+    // routes 3 and 4: the set is additionally sent through its own JSON / protobuf round trip
+    if route == 3 {
+        ps = match ps.clone().to_json().map_err(|e| e.to_string()).and_then(|j| PolicySet::from_json_value(j).map_err(|e| e.to_string())) {
+            Ok(p) => p,
+            Err(e) => return Some(Violation::new("replica_build", "route3 json round trip", step, "the policy set survives to_json/from_json", e)),
+        };
+    }
+    if route == 4 {
+        ps = match ps.encode().map_err(|e| e.to_string()).and_then(|b| PolicySet::decode(&b[..]).map_err(|e| e.to_string())) {
+            Ok(p) => p,
+            Err(e) => return Some(Violation::new("replica_build", "route4 protobuf round trip", step, "the policy set survives encode/decode", e)),
+        };
+    }
     // entities in permuted order, sometimes in two batches
     let mut recs: Vec<&EntRec> = m.ents.values().collect();
     rng.shuffle(&mut recs);
     let split = if recs.len() > 1 && rng.pct(50) { rng.range(1, recs.len() - 1) } else { recs.len() };
     let store = Entities::from_entities(recs[..split].iter().map(|r| mk_entity(r)), None).and_then(|s| s.add_entities(recs[split..].iter().map(|r| mk_entity(r)), None));
-    let store = match store {
+    let mut store = match store {
         Ok(s) => s,
         Err(e) => return Some(Violation::new("replica_build", format!("route{route} store"), step, "the replica's store can be rebuilt", e.to_string())),
     };
+    // sometimes the store, too, goes through its JSON or protobuf form
+    match rng.below(4) {
+        0 => {
+            if let Ok(s2) = store.to_json_value().and_then(|v| Entities::from_json_value(v, None)) {
+                store = s2;
+            }
+        }
+        1 => {
+            if let Some(s2) = store.encode().ok().and_then(|b| Entities::decode(&b[..]).ok()) {
+                store = s2;
+            }
+        }
+        _ => {}
+    }
     let auth = Authorizer::new();
     let mut rq: Vec<&Req> = reqs.iter().collect();
     rng.shuffle(&mut rq);
@@ -969,12 +998,12 @@ impl World for Authz {
                 }
                 8 => ops.push(Op::Auth { req: gen_req(&mut rng) }),
                 9 => ops.push(Op::AuthAgain { k: rng.below(16) as u8 }),
-                _ => ops.push(Op::Rebuild { seed: hs.next(), perm: hs.next(), route: rng.below(3) as u8 }),
+                _ => ops.push(Op::Rebuild { seed: hs.next(), perm: hs.next(), route: rng.below(5) as u8 }),
             }
         }
         ops.push(Op::Auth { req: gen_req(&mut rng) });
         if rng.pct(60) {
-            ops.push(Op::Rebuild { seed: hs.next(), perm: hs.next(), route: rng.below(3) as u8 });
+            ops.push(Op::Rebuild { seed: hs.next(), perm: hs.next(), route: rng.below(5) as u8 });
         }
         Case { hash_seed: hs.next(), ops }
     }
